@@ -173,6 +173,12 @@ class AddStream(HTMLHandlerBase):
         if 'prefix' in params:
             data['directory'] = params['prefix']
         result = {}
+        if data.get('defaults') is not None and not isinstance(data['defaults'], dict):
+            msg = 'Invalid default options'
+            if is_ajax():
+                return jsonify({'error': msg}, 400)
+            flask.flash(msg, 'error')
+            return self.get(error=msg)
         if not is_valid_directory_name(data['directory']):
             msg = 'Invalid directory name'
             if is_ajax():
